@@ -16,12 +16,12 @@ RULE = ('exhaustive enumeration of (N,d) with N<=Nmax, d<=dmax and C(N+d-1,d)<=b
         'itertools enumeration; increment() traces and binomial/factorial/pow/pos helpers against exact references; '
         'a class = (kind, N, d); non-trivial = N>=2 and d>=2 for Gamma identities')
 ASSUMPTIONS = ['Python integer / Fraction arithmetic is exact']
-BOUNDS = {'quick': (6, 7, 60), 'thorough': (8, 10, 260)}
+BOUNDS = {'quick': (6, 7, 60), 'thorough': (8, 10, 220)}
 EXHAUSTIVE = {'quick': True, 'thorough': True}
 
 
 HIGH = {'quick': [(1, 11), (2, 11), (1, 13), (2, 13), (1, 16), (2, 16)],
-        'thorough': [(N, d) for N in (1, 2) for d in range(11, 19)] + [(3, 11), (3, 12), (4, 11)]}
+        'thorough': [(N, d) for N in (1, 2) for d in range(11, 19)] + [(3, 11), (3, 12)]}
 
 
 def pairs(tier):
